@@ -49,9 +49,15 @@ CHECKS = {
                      "values computed from the true lattice coordinates. Truth law: adjusted = generating coordinates and zero residuals with "
                      "approximate coordinates given, omitted (all documented subsets) or perturbed by 30 / 100 / 600 mm (distinct per point and "
                      "coordinate), with instrument / target heights (both, one-sided, above and below tol-abs), with further consistent observations, "
-                     "for all four algorithms; for noisy observations the result must not depend on the perturbed approximate coordinates. ",
-                note="trusted: textbook observation formulas in tools/session.py; completeness of approximate-coordinate strategies is claimed only "
-                     "for the template geometries (polar, intersection, trilateration, traverse, levelling, vectors)", ref="8/C06"),
+                     "for all four algorithms; for noisy observations the result must not depend on the perturbed approximate coordinates. "
+                     "AcordModel.tla states the documented strategy for approximate coordinates as a monotone closure (outer bearings, distances, inner "
+                     "angles to known points; inserted traverse), TLC checks that every constructed point is in the closure and that added observations "
+                     "never shrink it, and emits every construction history (polar by direction / angle, intersection, resection by directions / angles, "
+                     "trilateration, two distances + bearing, inserted traverse, in every order over 4-5 points, plus further observations); each network "
+                     "is written without approximate coordinates under names and document orders that hide the construction order and every point of the "
+                     "closure must come out at its true position.",
+                note="trusted: textbook observation formulas in tools/session.py; the closure is one-sided (nothing is claimed for points outside it) "
+                     "and covers horizontal positions; heights are covered by the OmitApprox edits of the templates", ref="8/C06"),
     "C07": dict(cat="exploration", technique="TLC-generated edit sessions replayed on gama-local; per-edit laws checked on results projected to the physical frame",
                 text="Noisy networks of SurveySession.tla are re-expressed by Translate, RotateCircle, Permute, Rename (incl. non-ASCII), SwitchUnits, "
                      "SwapEnds and MirrorAxes (8 axes x 2 angle senses), one edit exhaustively (thinned) and random 4-edit sessions (TLC -simulate). "
@@ -69,7 +75,8 @@ CHECKS = {
     "C02": dict(cat="exploration", technique="TLC-generated exact cases + TLC-generated sessions; pairwise SetAlgorithm law",
                 text="The four algorithms are compared pairwise on every LsqCases problem through both solver entry points (defect, x, residuals, "
                      "sum of squares, every q_xx and q_bb), on levelling networks through gama-local, and in SurveySession sessions where the edit "
-                     "SetAlgorithm (law: nothing changes) is applied alone and mixed with other edits on noisy 1-D/2-D/3-D networks; the outcome class "
+                     "SetAlgorithm (law: nothing changes) is applied alone, mixed with other edits on noisy 1-D/2-D/3-D networks, and after WeakPoint (a point "
+                     "removed for its huge covariance: second adjustment on the same solver object with renumbered unknowns); the outcome class "
                      "of ill-posed inputs is compared in C20.",
                 note="trusted: as C01/C07; conditioning-proportional tolerances are replaced by a well-conditioned universe with exactly known rank", ref="8/C02"),
     "C08": dict(cat="exploration", technique="TLC-generated ChangeDatum sessions + exact null-space certificate at the API",
@@ -89,7 +96,8 @@ CHECKS = {
     "C20": dict(cat="exploration", technique="exact admissibility (TLC null space) at the API + TLC-generated ill-posed sessions x 4 algorithms",
                 text="API: problems whose regularisation subset does not resolve the defect (decided exactly by rank of the restricted integer null "
                      "space) must be refused by every solver entry point; flagged dependent unknowns must be truly dependent (exact determinant test). "
-                     "Network: MakeFree(s) and Isolate edits of SurveySession.tla with the expected adjustability from the datum-defect table; outcome, "
+                     "Network: MakeFree(s) and Isolate edits of SurveySession.tla with the expected adjustability from the datum-defect table (incl. constraint "
+                     "sets with exactly as many coordinates as the defect; every signature says whether the model calls the set ill-posed or well-posed); outcome, "
                      "removed points and results must be equal for the four algorithms, and no output may contain a non-finite number.",
                 note="several genuine defects are recorded as known findings (null_space() stripping); the datum-defect table covers the templates only", ref="8/C20"),
     "C05": dict(cat="exploration", technique="TLC-enumerated lattice configurations with exact rational partial derivatives, compared with project_equations()",
@@ -110,8 +118,10 @@ CHECKS = {
                 text="Blunder(obs, pct, tol) of SurveySession.tla gives one observation of a consistent, maximally redundant template network a positional "
                      "misclosure of 99, 101 or 300 % of tol-abs (1, 10, 1000 mm): it must be excluded exactly when pct > 100, be listed under the outlying "
                      "absolute terms, and the result must equal that of the input with the observation deleted. Isolate adds a point with a single "
-                     "determining element: it must be removed, not adjusted, and be reported.",
-                note="direction sets with fewer than two targets and points without coordinates are covered through C06/C20 sessions only", ref="8/C14"),
+                     "determining element: it must be removed, not adjusted, and be reported, and the result must equal that of the network without it. "
+                     "LoneSet adds a direction set whose 1-3 readings all go to one target (excluded: result equals the input without the set); WeakPoint "
+                     "adds a point tied by observations of no weight (removed for its huge covariance, reported, result equals the input without it).",
+                note="points without coordinates are covered through C06/C20 sessions only", ref="8/C14"),
     "C12": dict(cat="exploration", technique="TLC-checked escape law + TLC-enumerated identifier strings; writer -> two independent readers; language/tool laws",
                 text="XmlResult.tla states the escape function of the XML recommendation and TLC checks Unescape(Escape(s)) = s on all strings over "
                      "{a < > & ' \" e-acute blank} up to length 3; the strings become point ids and descriptions of generated networks (all --cov-band "
